@@ -38,6 +38,37 @@ func (bc *Blockchain) VerifDeliverRaw(data []byte) (stage int, hash util.Hash, e
 	return 2, hash, nil
 }
 
+// VerifDeliverBatch handles several BLOCK packet payloads the way packetBlock does up to the hand-over to the
+// post-processor (DeserializeFull, PrevalidateBlock, entry on the post-processing queue, in the given order) and then
+// runs the post-processor once, synchronously (selectAndPostprocess, what startPostprocessor does when woken up).
+// The validator's own goroutines must have been stopped (Validator.Close) so that nothing else drains the queue.
+// stage per payload: 0 = decode failed, 1 = prevalidation failed, 2 = queued.
+func (bc *Blockchain) VerifDeliverBatch(raws [][]byte) (stages []int) {
+	v := bc.Validator
+	for _, data := range raws {
+		bl := &block.Block{}
+		txs, err := bl.DeserializeFull(data)
+		if err != nil {
+			stages = append(stages, 0)
+			continue
+		}
+		hash := bl.Hash()
+		bc.BlockQueue.Update(func(qt *QueueTx) {
+			qt.BlockDownloaded(hash)
+		})
+		if err := bc.PrevalidateBlock(bl, txs); err != nil {
+			stages = append(stages, 1)
+			continue
+		}
+		v.postprocessMut.Lock()
+		v.postprocess = append(v.postprocess, PostprocessData{Block: bl, Hash: hash, Txs: txs})
+		v.postprocessMut.Unlock()
+		stages = append(stages, 2)
+	}
+	v.selectAndPostprocess()
+	return stages
+}
+
 // VerifDeliver is VerifDeliverRaw for an already decoded block.
 func (bc *Blockchain) VerifDeliver(bl *block.Block, txs []*transaction.Transaction) (stage int, err error) {
 	hash := bl.Hash()
